@@ -301,3 +301,38 @@ func VerifH_C17_plugin_observed() {
 	verifrt.Settle()
 	verifrt.Assert(verifrt.LiveGoroutines() == 0, "no goroutine of the step survives Close")
 }
+
+// C05: when the caller's ForceClose / Close returns, the plugin is closed and the step's goroutines
+// are gone - also when stopping the container is slow and the step has already begun to close itself
+// (stop condition on a running step without cancel handler, or with an expired closure timeout).
+func VerifH_C05_slow_container_stop() {
+	e := verifNewEnv(verifrt.Choice("hasCancel", 2) == 1)
+	e.lazy = false
+	e.execMode = 1
+	e.ignoreSignal = true
+	e.slowClose = true
+	r := verifStart(e)
+	given := map[string]bool{}
+	verifAct(e, r, given, 0)
+	verifAct(e, r, given, 1)
+	verifrt.Assert(r.ProvideStageInput("starting", map[string]any{"input": any(verifrt.NondetVal("in")), "closure_wait_timeout": int64(0)}) == nil, "starting input accepted")
+	verifrt.Settle()
+	if verifrt.Choice("stop-first", 2) == 1 {
+		verifrt.Reach("stopped-first")
+		verifrt.Assert(r.ProvideStageInput("cancelled", map[string]any{"stop_if": true}) == nil, "stop_if accepted")
+		verifrt.Settle() // the step starts closing itself and is now waiting for the container to stop
+	}
+	var err error
+	if verifrt.Choice("how", 2) == 0 {
+		err = r.ForceClose()
+	} else {
+		err = r.Close()
+	}
+	verifrt.Assert(err == nil, "closing returns no error")
+	// at this very moment (no settling): nothing may be left
+	for _, p := range e.plugins {
+		verifrt.Assert(p.closes >= 1, "every deployed plugin is closed by the time the close request returns")
+	}
+	verifrt.Assert(verifrt.LiveGoroutines() == 0, "no goroutine of the step is alive by the time the close request returns")
+	verifrt.Assert(e.execLive == 0, "no plugin execution is in flight by the time the close request returns")
+}
